@@ -322,6 +322,11 @@ pub fn run_check(replay: Option<Value>) -> i32 {
                     let (a, b) = if backward { (1.0, 0.001) } else { (-1.0, -0.001) };
                     far.push((9usize, Scene { name: format!("{} (towards the origin: [{}, {}])", p.name, a, b), prob: p, x0: a, xend: b }, true));
                 }
+                // (and the first scene with first_step = 1.5 span: the first attempt is already the step clipped to xend
+                // and is rejected with the last-step flag set and nothing accepted yet; not RK4, which rejects nothing)
+                if si == 0 && *m != Method::RK4 {
+                    far.push((10usize, Scene { name: format!("{} (first_step = 1.5 span)", sc.name), prob: sc.prob.clone(), x0: sc.x0, xend: sc.xend }, false));
+                }
                 std::iter::once((si, sc, false)).chain(again).chain(tenth).chain(far)
             }) {
                 let mut cfg = scene_cfg(*m, &sc, 1e-5);
@@ -339,6 +344,9 @@ pub fn run_check(replay: Option<Value>) -> i32 {
                     cfg.first_step = Some((sc.xend - sc.x0) / parts);
                     cfg.max_step = Some((sc.xend - sc.x0).abs() / parts);
                 }
+                if si == 10 {
+                    cfg.first_step = Some((sc.xend - sc.x0) * 1.5);
+                }
                 // the accepted grid as the low-level solver's callbacks see it (solve_ivp withholds the
                 // samples before x0 + first_step, so its own t is not the grid when first_step is set)
                 let with_grid = |p: Plain| -> Option<Plain> {
@@ -351,7 +359,25 @@ pub fn run_check(replay: Option<Value>) -> i32 {
                 let plain = match plain_run(&sc.prob, &cfg).and_then(&with_grid) {
                     Some(p) => p,
                     None => {
-                        rep.machinery_errors.push(format!("plain run failed for {} {}", mname(*m), sc.name));
+                        // no grid to place requests on; when the run with five requested times nevertheless reports Success,
+                        // the reference model needs no grid: exactly those times, bit for bit
+                        let mut c5 = cfg.clone();
+                        let req: Vec<f64> = (0..5).map(|i| if i == 4 { sc.xend } else { sc.x0 + (sc.xend - sc.x0) * i as f64 / 4.0 }).collect();
+                        c5.t_eval = Some(req.clone());
+                        let r5 = run(&sc.prob, &c5);
+                        match r5.sol() {
+                            Some(s5) if s5.status == Status::Success && !(s5.t.len() == req.len() && s5.t.iter().zip(&req).all(|(a, b)| a.to_bits() == b.to_bits())) => {
+                                let key = format!("c05:{}.{}.{}.nogrid", mi, backward as u8, si);
+                                if only.as_ref().map_or(true, |o| *o == key) {
+                                    rep.violations.push(
+                                        Violation::new(&key, "requested-times", format!("{} on {}: Success, requested {:?}, reported {:?}", mname(*m), sc.name, req, s5.t), json!({"key": key, "cfg": c5.json(&sc.prob.name)}))
+                                            .with("method", mname(*m))
+                                            .with("backward", backward),
+                                    );
+                                }
+                            }
+                            _ => rep.machinery_errors.push(format!("plain run failed for {} {}", mname(*m), sc.name)),
+                        }
                         continue;
                     }
                 };
